@@ -1119,8 +1119,28 @@ func checkSortDriver(c *Ctx, r *Rec, info *types.Info, fd *ast.FuncDecl, merge *
 	if len(got) > 0 && outer != nil && outer != inner && !perPass {
 		src, dst := strings.TrimSuffix(got[0][0].base, "!"), strings.TrimSuffix(got[0][2].base, "!")
 		swapped := false
-		if n := len(outer.Body.List); n > 0 {
-			if as, ok := outer.Body.List[n-1].(*ast.AssignStmt); ok && isSwap(as) {
+		passStmts := outer.Body.List
+		// a pass written as a while loop ends with the step of the loop's own variable
+		// (width = width * 2): the exchange is the statement before it
+		if n := len(passStmts); n > 1 && outer.Post == nil && outer.Cond != nil {
+			if be, ok := ast.Unparen(outer.Cond).(*ast.BinaryExpr); ok {
+				ctl := identObj(info, be.X)
+				var tgt ast.Expr
+				switch l := passStmts[n-1].(type) {
+				case *ast.IncDecStmt:
+					tgt = l.X
+				case *ast.AssignStmt:
+					if len(l.Lhs) == 1 && !isSwap(l) {
+						tgt = l.Lhs[0]
+					}
+				}
+				if ctl != nil && tgt != nil && identObj(info, tgt) == ctl {
+					passStmts = passStmts[:n-1]
+				}
+			}
+		}
+		if n := len(passStmts); n > 0 {
+			if as, ok := passStmts[n-1].(*ast.AssignStmt); ok && isSwap(as) {
 				a, b := exprStr(as.Lhs[0]), exprStr(as.Lhs[1])
 				swapped = (a == src && b == dst) || (a == dst && b == src)
 			}
